@@ -458,7 +458,10 @@ pub fn c15(cx: &Ctx) -> (Vec<Violation>, Cover) {
                 ));
                 break;
             }
-            if !alive && info.canary_drops.iter().filter(|p| **p < q).count() != 1 {
+            // (the zero-sized body's canary lives in a `Local`: it exists only if the reactor ran)
+            let drops = info.canary_drops.iter().filter(|p| **p < q).count();
+            let never_ran_zst = info.flavour == crate::program::Flavour::Zst && !ran;
+            if !alive && drops != 1 && !(never_ran_zst && drops == 0) {
                 v.push(Violation::new(
                     "C15",
                     "C15/state-not-dropped",
